@@ -1,5 +1,7 @@
 //! dsim-nostd: the RMS scenario against the no_std feature set of the dasp crates
 //! (`sample_sqrt` is the exponent-halving bit trick instead of libm).
+#[path = "../../dsim/src/raw.rs"]
+mod raw;
 #[path = "../../dsim/src/rms.rs"]
 mod rms;
 
